@@ -29,7 +29,7 @@ def run(ctx) -> None:
     ctx.rule("d.row-view", "Row snapshots [col._underlying for col in table._underlying] (unfiltered, in order, straight from the "
                            "table) and every Row accessor indexes that snapshot with the row index; iteration yields rows 0..len-1", 6)
     ctx.rule("e.structural-ops", ">> keeps the existing columns first and untouched, << appends per column over zip(strict) after "
-                                 "a width check, .T builds row i from column cells [i] of all columns", 4)
+                                 "a width check (a str cell is one cell), .T builds row i from column cells [i] of all columns", 5)
     ctx.section("guards", _guards, ctx)
     ctx.section("length-field", _length_field, ctx)
     ctx.section("writes", _writes, ctx)
@@ -246,7 +246,10 @@ def _row_view(ctx) -> None:
     f = prog.func("table.Row.__init__")
     tbl = f.params[1]
     snap = [s for s in f.body if isinstance(s, ast.Assign) and short(s.targets[0]) == "self._raw_cols"]
-    ok = len(snap) == 1 and cshort(snap[0].value) == f"[_0._underlying for _0 in {tbl}._underlying]"
+    all_stores = [s for s in walk_stmts(f.body) if isinstance(s, (ast.Assign, ast.AugAssign, ast.AnnAssign))
+                  and any(isinstance(n, ast.Attribute) and n.attr == "_raw_cols" and isinstance(n.ctx, ast.Store)
+                          for t in (s.targets if isinstance(s, ast.Assign) else [s.target]) for n in ast.walk(t))]
+    ok = len(snap) == 1 and len(all_stores) == 1 and cshort(snap[0].value) == f"[_0._underlying for _0 in {tbl}._underlying]"
     ctx.ob("d.row-view", f, "snapshot", ok, "snapshot of all column tuples, in order, straight from the table", snap[0] if snap else f.node,
            message=f"Row takes its cells from `{short(snap[0].value, 70) if snap else '?'}`, not from the table's current column tuples "
                    f"[col._underlying for col in {tbl}._underlying]: a row view can disagree with the columns (stale or filtered snapshot)")
@@ -336,6 +339,27 @@ def _structural(ctx) -> None:
     if len(width) < len(rets):
         probs.append("a << branch has no column-count guard")
     ctx.ob("e.structural-ops", f, "<<", not probs and bool(rets), "<< appends per column after a width check", f.node, message="; ".join(probs))
+    # Vector.__lshift__ (the per-column append): a string is ONE cell, never a sequence of cells
+    vl = prog.func("vector.Vector.__lshift__")
+    other = vl.params[1]
+    probs = []
+    excl = f"not isinstance({other}, (str, bytes, bytearray))"
+    for n in walk_no_nested(vl.node):
+        if isinstance(n, ast.Call) and short(n) == f"isinstance({other}, Iterable)":
+            par = prog.parent(n)
+            if not (isinstance(par, ast.BoolOp) and isinstance(par.op, ast.And) and any(short(v) == excl for v in par.values)):
+                probs.append(f"`{short(par, 60)}` treats every Iterable as a sequence of cells: a str/bytes cell would be split into characters")
+    rets = [short(s.value, 120) for s in walk_stmts(vl.body) if isinstance(s, ast.Return)]
+    if not any(f"({other},)" in r for r in rets):
+        probs.append("a scalar (or string) is not appended as ONE element")
+    for s_ in walk_stmts(vl.body):
+        if isinstance(s_, ast.Return) and f"tuple({other})" in short(s_.value, 200):
+            from ..sites import Resolver
+            gs = Resolver(prog, vl).guards(s_)
+            if not any(pol and excl in short(t) for t, pol in gs):
+                probs.append(f"`{short(s_, 60)}` spreads `{other}` into cells without the str/bytes exclusion")
+    ctx.ob("e.structural-ops", vl, "append-cell", not probs, "<< spreads only real sequences; strings and scalars are one cell", vl.node,
+           message="Vector.__lshift__: " + "; ".join(probs))
     g = prog.func("table.Table.T")
     probs = []
     loops = [s for s in walk_stmts(g.body) if isinstance(s, ast.For)]
